@@ -25,14 +25,14 @@ PLAN = {
     "C02": dict(engine="vsim", level="exploration", extra=["vproc"]),
     "C03": dict(engine="vsim", level="exploration", extra=["vfront"]),
     "C04": dict(engine="vsim", level="exploration", extra=["vproc"]),
-    "C05": dict(engine="vsim", level="exploration"),
+    "C05": dict(engine="vsim", level="exploration", extra=["vfront"]),
     "C06": dict(engine="vsim", level="fault_enumeration", extra=["vproc", "vstore"]),
     "C07": dict(engine="vsim", level="exploration", extra=["vproc"]),
     "C08": dict(engine="vsim", level="exploration"),
     "C09": dict(engine="vsim", level="exploration", extra=["vproc"]),
     "C10": dict(engine="vsim", level="exploration"),
     "C11": dict(engine="vsim", level="exploration", extra=["vconc"]),
-    "C12": dict(engine="vconc", level="exploration", race=True, extra=["vproc"]),
+    "C12": dict(engine="vconc", level="exploration", race=True, extra=["vproc", "vfront"]),
     "C13": dict(engine="vproc", level="exploration", server=True),
     "C14": dict(engine="vsim", level="exploration", extra=["vproc"]),
     "C15": dict(engine="vfront", level="exploration"),
